@@ -21,7 +21,7 @@ from mc.harness import TableEvaluator, close, exception_name, make_manager, vali
 
 PROPERTY = "C04"
 RULE = (
-    "E1 product enumeration: flavour (objective 1/2 keys, constraint upper/lower/equality/two-sided) x "
+    "E1 product enumeration: flavour (objective 1/2 keys incl. negative objective weights, constraint upper/lower/equality/two-sided) x "
     "n x ALL n! orderings of distinct dyadic ranking values x ALL 2^n failure masks x percentile grid "
     "(k/m for all m<=n incl. both ulp neighbours, j/20, 0.35, 0.01, 0.999, 1.0). Each case calls the real "
     "filter. Reference: exact rational tail weights from Fraction(p). A case is trivial when the statement "
@@ -38,7 +38,7 @@ BOUNDS = {
     "thorough": "n<=7 all perms x all masks x grid; end-to-end n<=5",
 }
 
-FLAVOURS = ["obj1", "obj2", "obj2_single", "con_upper", "con_lower", "con_eq", "con_two_sided"]
+FLAVOURS = ["obj1", "obj2", "obj2_single", "obj2_neg", "obj2_negsum", "con_upper", "con_lower", "con_eq", "con_two_sided"]
 TOL = 1e-12
 
 
@@ -69,9 +69,9 @@ def build_config(flavour: str, n: int, p: float) -> dict[str, Any]:
         "realizations": {"weights": [1.0] * n, "realization_min_success": 0},
     }
     if flavour.startswith("obj"):
-        sort = {"obj1": [0], "obj2": [0, 1], "obj2_single": [1]}[flavour]
+        sort = {"obj1": [0], "obj2": [0, 1], "obj2_single": [1], "obj2_neg": [1], "obj2_negsum": [0, 1]}[flavour]
         config["objectives"] = {
-            "weights": [1.0] if flavour == "obj1" else [0.25, 0.75],
+            "weights": [1.0] if flavour == "obj1" else ([2.0, -1.0] if "neg" in flavour else [0.25, 0.75]),
             "realization_filters": [0] if flavour == "obj1" else [0, 0],
         }
         config["realization_filters"] = [{"method": "cvar-objective", "options": {"sort": sort, "percentile": p}}]
@@ -112,6 +112,15 @@ def make_inputs(flavour: str, badness: np.ndarray, failed: np.ndarray) -> tuple[
         constraints = None
     elif flavour == "obj2_single":
         objectives = np.stack([-(idx * 0.5), badness], axis=1)
+        constraints = None
+    elif flavour == "obj2_neg":
+        # weights (2,-1), key = objective 1 only: weighted value -1 * (-badness) = badness
+        objectives = np.stack([idx * 0.5, -badness], axis=1)
+        constraints = None
+    elif flavour == "obj2_negsum":
+        # weights (2,-1): 2*(badness+c)/2 - c = badness
+        c = 0.5 * idx - 1.0
+        objectives = np.stack([(badness + c) / 2.0, c], axis=1)
         constraints = None
     else:
         objectives = (idx * 0.25)[:, None].copy()
@@ -248,7 +257,7 @@ def e2e_judge(flavour: str, badness: np.ndarray, failed: np.ndarray, p: float) -
         j.fail("e2e-no-functions", flavour=flavour)
         return j
     if flavour.startswith("obj"):
-        cols = {"obj1": [0], "obj2": [0, 1], "obj2_single": [0, 1]}[flavour]
+        cols = [0] if flavour == "obj1" else [0, 1]
         for col in cols:
             vals = np.where(failed, 0.0, table[:, col])
             expected = float((w * vals).sum() / pe)
